@@ -49,7 +49,7 @@ FAULT_PROPS = {
     "HINT": {"C09", "C10"},
     "ITER_PROVIDED": {"C09", "C10"},
     "FUSED": {"C08"},
-    "NOT_LEFT": {"C08"},
+    "NOT_LEFT": {"C08", "C06"},
     "PAIR_SPLIT": {"C05", "C12"},
     "SERDE": {"C20"},
     "NE_INCONSISTENT": {"C14"},
